@@ -383,12 +383,13 @@ func init() {
 
 	register(&Rule{
 		Name:  "TAB-hex",
-		Doc:   "every string constant indexed by a nibble expression (c>>4, c&15) is 0123456789ABCDEF: escapes are upper-case hex and the encoder copies agree",
+		Doc:   "every string constant indexed by a nibble expression (c>>4, c&15) is 0123456789ABCDEF, every function that writes the byte '%' into a buffer takes both digits from such a table, and every format string that emits a literal %% follows it with %02X: escapes are upper-case hex and the encoder copies agree",
 		Props: []string{"C10"},
-		Floor: 6,
+		Floor: 2,
 		Run: func(c *Ctx, s *core.Sink) {
 			spec := loadSetsSpec(c)
 			n := map[string]int{}
+			nibbles := map[*ssa.Function]string{}
 			for _, f := range c.P.ModFns {
 				for _, b := range f.Blocks {
 					for _, ins := range b.Instrs {
@@ -426,9 +427,61 @@ func init() {
 						}
 						base := "hex/" + core.FuncName(f) + "/" + nib
 						n[base]++
+						nibbles[f] = nibbles[f] + nib
 						s.Check(constant.StringVal(k.Value) == spec.HexUpper, fmt.Sprintf("%s#%d", base, n[base]), c.P.Pos(lk.Pos()), "digits "+spec.HexUpper, "nibble table is "+k.Value.String())
 					}
 				}
+			}
+			// writers of '%': both digits come from a nibble table in the same function
+			for _, f := range c.P.ModFns {
+				var at token.Pos
+				for _, b := range f.Blocks {
+					for _, ins := range b.Instrs {
+						switch x := ins.(type) {
+						case *ssa.Store:
+							if _, isIA := x.Addr.(*ssa.IndexAddr); !isIA {
+								continue
+							}
+							bt, ok := x.Val.Type().Underlying().(*types.Basic)
+							if !ok || bt.Kind() != types.Uint8 {
+								continue
+							}
+							if k, ok := constInt(x.Val); ok && k == '%' && at == token.NoPos {
+								at = x.Pos()
+							}
+						case *ssa.Call:
+							cl := x.Common().StaticCallee()
+							if cl == nil || core.PkgPathOf(cl) != "fmt" || len(x.Common().Args) == 0 {
+								continue
+							}
+							for _, a := range x.Common().Args {
+								format, ok := constString(a)
+								if !ok || !strings.Contains(format, "%%") {
+									continue
+								}
+								key := "hex/" + core.FuncName(f) + "/format"
+								rest := format
+								good := true
+								for {
+									i := strings.Index(rest, "%%")
+									if i < 0 {
+										break
+									}
+									rest = rest[i+2:]
+									if !strings.HasPrefix(rest, "%02X") {
+										good = false
+									}
+								}
+								s.Check(good, key, c.P.Pos(x.Pos()), "a literal % is followed by %02X", "format "+fmt.Sprintf("%q", format)+" writes a % that is not followed by two upper-case hex digits (%02X)")
+							}
+						}
+					}
+				}
+				if at == token.NoPos {
+					continue
+				}
+				nb := nibbles[f]
+				s.Check(strings.Contains(nb, "hi") && strings.Contains(nb, "lo"), "hex/"+core.FuncName(f)+"/writer", c.P.Pos(at), "writes '%' followed by digits of the nibble table", "writes the byte '%' into a buffer but does not take both hex digits from a nibble table in the same function: the spelling of the escape is not decided")
 			}
 		},
 	})
@@ -861,130 +914,10 @@ func init() {
 
 	register(&Rule{
 		Name:  "TAB-ipv4prefix",
-		Doc:   "the IPv4 number parser switches to radix 16 exactly on the prefixes 0x / 0X and to radix 8 exactly on a leading 0, both only for parts of at least two code points, and strips exactly the prefix",
+		Doc:   "the IPv4 number parser switches to radix 16 exactly on the prefixes 0x / 0X and to radix 8 exactly on a leading 0, both only for parts of at least two code points, and strips exactly the prefix: the decision DAG in front of the strconv call is compared with the standard's table over every valuation of its atoms (prefix, length and equality tests) that some text realises",
 		Props: []string{"C07"},
-		Floor: 2,
-		Run: func(c *Ctx, s *core.Sink) {
-			fn := c.P.Func("url", "parser", "parseIPv4Number")
-			if fn == nil {
-				s.Unknown("ipv4prefix/anchor", "-", "parseIPv4Number not found")
-				return
-			}
-			fd := c.P.Decl(fn)
-			pk := c.P.ByName["url"]
-			info := pk.TypesInfo
-			// the radix variable: second argument of strconv.ParseInt / ParseUint
-			var radix types.Object
-			ast.Inspect(fd.Body, func(n ast.Node) bool {
-				if call, ok := n.(*ast.CallExpr); ok {
-					if f, _ := typeutil.Callee(info, call).(*types.Func); f != nil && (f.FullName() == "strconv.ParseInt" || f.FullName() == "strconv.ParseUint") && len(call.Args) >= 2 {
-						if id, ok := ast.Unparen(call.Args[1]).(*ast.Ident); ok {
-							radix = info.Uses[id]
-						}
-					}
-				}
-				return true
-			})
-			if radix == nil {
-				s.Unknown("ipv4prefix/radix", c.P.Pos(fd.Pos()), "no strconv.ParseInt(input, R, …) with a radix variable found")
-				return
-			}
-			type branch struct {
-				radix    int64
-				prefixes []string
-				minLen   int64
-				strip    int64
-				pos      token.Pos
-			}
-			var branches []branch
-			var visit func(ifs *ast.IfStmt)
-			visit = func(ifs *ast.IfStmt) {
-				br := branch{radix: -1, minLen: -1, strip: -1, pos: ifs.Pos()}
-				ast.Inspect(ifs.Cond, func(n ast.Node) bool {
-					switch x := n.(type) {
-					case *ast.CallExpr:
-						if f, _ := typeutil.Callee(info, x).(*types.Func); f != nil && f.FullName() == "strings.HasPrefix" && len(x.Args) == 2 {
-							if tv, ok := info.Types[x.Args[1]]; ok && tv.Value != nil {
-								br.prefixes = append(br.prefixes, constant.StringVal(tv.Value))
-							}
-						}
-					case *ast.BinaryExpr:
-						if x.Op == token.GEQ || x.Op == token.GTR {
-							if call, ok := ast.Unparen(x.X).(*ast.CallExpr); ok {
-								if id, ok := call.Fun.(*ast.Ident); ok && id.Name == "len" {
-									if tv, ok := info.Types[x.Y]; ok && tv.Value != nil {
-										v, _ := constant.Int64Val(tv.Value)
-										if x.Op == token.GTR {
-											v++
-										}
-										br.minLen = v
-									}
-								}
-							}
-						}
-					}
-					return true
-				})
-				for _, st := range ifs.Body.List {
-					as, ok := st.(*ast.AssignStmt)
-					if !ok || len(as.Lhs) != 1 || len(as.Rhs) != 1 {
-						continue
-					}
-					if id, ok := as.Lhs[0].(*ast.Ident); ok && info.Uses[id] == radix {
-						if tv, ok := info.Types[as.Rhs[0]]; ok && tv.Value != nil {
-							br.radix, _ = constant.Int64Val(tv.Value)
-						}
-					}
-					if sl, ok := as.Rhs[0].(*ast.SliceExpr); ok && sl.High == nil && sl.Low != nil {
-						if tv, ok := info.Types[sl.Low]; ok && tv.Value != nil {
-							br.strip, _ = constant.Int64Val(tv.Value)
-						}
-					}
-				}
-				if br.radix >= 0 {
-					branches = append(branches, br)
-				}
-				if e, ok := ifs.Else.(*ast.IfStmt); ok {
-					visit(e)
-				}
-			}
-			for _, st := range fd.Body.List {
-				if ifs, ok := st.(*ast.IfStmt); ok {
-					visit(ifs)
-				}
-			}
-			want := map[int64]struct {
-				prefixes []string
-				strip    int64
-			}{16: {[]string{"0X", "0x"}, 2}, 8: {[]string{"0"}, 1}}
-			seen := map[int64]bool{}
-			for _, br := range branches {
-				w, ok := want[br.radix]
-				key := fmt.Sprintf("ipv4prefix/radix%d", br.radix)
-				if !ok {
-					s.Bad(key, c.P.Pos(br.pos), fmt.Sprintf("radix %d is not one the standard's IPv4 number parser uses", br.radix))
-					continue
-				}
-				seen[br.radix] = true
-				sort.Strings(br.prefixes)
-				var bad []string
-				if strings.Join(br.prefixes, "|") != strings.Join(w.prefixes, "|") {
-					bad = append(bad, fmt.Sprintf("prefixes %q, want %q", br.prefixes, w.prefixes))
-				}
-				if br.minLen != 2 {
-					bad = append(bad, fmt.Sprintf("requires length ≥ %d, want ≥ 2", br.minLen))
-				}
-				if br.strip != w.strip {
-					bad = append(bad, fmt.Sprintf("strips %d code points, want %d", br.strip, w.strip))
-				}
-				s.Check(len(bad) == 0, key, c.P.Pos(br.pos), fmt.Sprintf("prefixes %q, length ≥ 2, strips %d", w.prefixes, w.strip), strings.Join(bad, "; "))
-			}
-			for r := range want {
-				if !seen[r] {
-					s.Bad(fmt.Sprintf("ipv4prefix/radix%d", r), c.P.Pos(fd.Pos()), fmt.Sprintf("no branch selects radix %d", r))
-				}
-			}
-		},
+		Floor: 3,
+		Run:   runIPv4Prefix,
 	})
 
 	register(&Rule{
